@@ -130,6 +130,10 @@ func (p *Pollard) getNode(pos uint64) (n, sibling, parent *polNode, err error) {
 		return nil, nil, nil,
 			fmt.Errorf("Position %d does not exist in tree of %d leaves", pos, p.NumLeaves)
 	}
+	if !inForest(pos, p.NumLeaves, TreeRows(p.NumLeaves)) {
+		return nil, nil, nil,
+			fmt.Errorf("Position %d does not exist in tree of %d leaves", pos, p.NumLeaves)
+	}
 	tree, branchLen, bits, err := DetectOffset(pos, p.NumLeaves)
 	if err != nil {
 		return nil, nil, nil, err
